@@ -2,15 +2,17 @@
 import atexit
 import itertools
 import os
+import re
 import shutil
 import tempfile
+import time
 
 import kv
 from kv import Case, xn, xb, xl, xlist, xopt, xbool
 
 ID = "C02"
 MODULE = "C02"
-IMPORTS = "Bytes RustInt RustStd Panics PanicsProofs"
+IMPORTS = "Bytes RustInt RustStd Panics PanicsProofs Ims ImsProofs UrlCrawl UrlCrawlProofs Templates TemplatesProofs"
 PROFILES = ("dev", "nochk")
 KERNEL_SAMPLE = 30
 THEOREMS = []     # pinned statements: at the end of the file
@@ -52,8 +54,9 @@ INVENTORY = [
     ("utils/src/parse.rs apply_to_response", "range_end - 1; body.slice(range_start as usize..range_end as usize); "
      "HeaderValue::from_maybe_shared(..).unwrap()", "Model/Range.v apply_range (sub_u64, slice_chk); range_never_panics (C09)"),
     ("src/lib.rs handle_cache / get_response", "utils::parse::uri(&decoded).unwrap(); creation - 1.seconds(); format(..).expect(..)",
-     "Model/PathSan.v request_fs_path; fs_path_never_panics (C01). The date arithmetic is on the server's clock; the if-modified-since "
-     "parser is the time crate: exploration component explore.date"),
+     "Model/PathSan.v request_fs_path; fs_path_never_panics (C01). If-Modified-Since (to_str, the time crate's parser for HTTP_DATE, "
+     "timestamp >= creation - 1 s): Model/Ims.v; if_modified_since_never_panics / _rule / _plus_variant_refuted; components ims.decide "
+     "(compared) and explore.date, both through the REAL hit arm of handle_cache on a warmed cache"),
     ("src/lib.rs SendKind::send", "apply_to_response on the encoded body; ensure_length; set_content_length(..).unwrap()",
      "Model/RangeConn.v conn_step (C09); conn_never_panics"),
     ("src/comprash.rs PathQuery / UriKey", "&self.string[..query_start]; &self.string[query_start..]", "Model/Panics.v pq_path/pq_query; "
@@ -74,14 +77,18 @@ INVENTORY = [
      "Model/Cors.v is_part_of_origin / check_cors_request are total (C13); borrowed component cors.check"),
     ("src/vary.rs VariedResponse", "responses.insert(position, ..); &self.responses[position]; first().unwrap(); get_by_request(..).unwrap_err()",
      "Model/Vary.v (C05 stale_position_safe); exploration on /v"),
-    ("src/limiting.rs register", "max_requests * 3; iteration + 1; expect(\"we're before 1970!?\")", "Model/Limiter.v; limiter_never_panics (C12)"),
+    ("src/limiting.rs register", "max_requests * 3; iteration + 1; expect(\"we're before 1970!?\")", "Model/Limiter.v; limiter_never_panics (C12); a stage "
+     "of request_path (every configuration, every history of earlier registrations); the 429 answer and the drop are reached live on the host "
+     "lim.example"),
     ("src/extensions.rs uri_redirect (Prime)", "PathAndQuery::from_maybe_shared(..).unwrap(); Uri::from_parts(..).unwrap()",
      "http crate invariants (path + configured suffix + query is a valid path-and-query below 64 KiB because the head is below 16 KiB): "
      "not modelled, exploration (paths ending in '/' and '.')"),
     ("src/extensions.rs http_to_https (Prepare)", "HeaderValue::from_maybe_shared(..).unwrap() on authority + path + query",
      "needs a certificate; URI bytes are visible ASCII or >= 0x80, never DEL: not modelled, not explored"),
     ("src/extensions.rs stream_body", "end - start; pos += read; read - (pos - end) as usize; &buf[..buf_end]",
-     "Model/Panics.v stream_window/stream_chunk; stream_window_never_panics; component stream.window (loopback)"),
+     "Model/Panics.v stream_window/stream_chunk/stream_loop; stream_window_never_panics, stream_body_never_panics (the hypotheses of "
+     "stream_chunk_never_panics are invariants of the loop); component stream.window (loopback): announced length, bytes really sent, "
+     "framing of the next response"),
     ("src/extensions.rs resolve_present + utils/src/extensions.rs PresentExtensions", "body.split_off(data_start); &data[start..pos]; "
      "extensions[start + 1..]", "Model/PresentLine.v (C16) — file content, not request bytes; borrowed component present.parse"),
     ("src/extensions.rs nonce (Present)", "&body[value_start + 1..]; BytesCow::replace expect(..)", "Model/Nonce.v nonce_never_panics (C14) — file content"),
@@ -93,7 +100,22 @@ INVENTORY = [
     ("src/extensions.rs add_sorted_list!", "panic!(\"reached minimum priority ..\") at i32::MIN", "configuration time (C16), no client input"),
     ("src/vary.rs get_header", "capacity arithmetic over configured header names; from_maybe_shared_unchecked", "configured names only (asserted in add_rule)"),
     ("utils/src/lib.rs quoted_str_split", "-", "Model/Quoted.v (C19): control socket only, not reachable over HTTP"),
-    ("http, h2, h3, rustls, moka, time, tokio, percent-encoding, mime", "-", "not modelled; exploration run only (explore.conn, explore.date)"),
+    ("url-crawl/src/lib.rs LinkIter (file / upstream content: HTTP/2 push, reverse proxy)", "&self.data[pos + 1..]; &quote[..ending]; &self.data[..=pos]; "
+     "&self.data[advance..]; QuoteType::from_byte(..).unwrap(); &data[..pos], &data[tag_start..tag_len + tag_start] in filters::resource",
+     "Model/UrlCrawl.v (both filters of the crate); link_iter_never_panics, link_iter_v0_refuted; FIXED fa13a8b; components urls.iter (compared), explore.urls"),
+    ("extensions/src/templates.rs extract_templates / handle_template (file content: the operator's templates and the pages that name them)",
+     "file.slice(start..end) x2; start_byte.take().unwrap() x5; &file[start..position - 1]; file[..=first_line_end]; file[placeholder_start + 2..position]",
+     "Model/Templates.v (extract_templates, handle_template, the lazy lookup between them); template_engine_never_panics, template_engine_v0_refuted; "
+     "FIXED fe1115a (an empty last template); components tmpl.render (compared: what the real engine renders through handle_cache) and explore.file: "
+     "template files and page bodies bounded-exhaustively over {$[ a b ] LF CRLF \\ SP}"),
+    ("extensions/src/lib.rs download / cache / hide / ip_allow (Present), push (Post)", "argument parsers (split(':'), parse::<IpAddr>(), str::parse for cache "
+     "preferences); c.replace(0..data_start, ..) in hide; &path[..=last_slash] in push (HTTP/2 only)",
+     "not modelled; linked into the exploration host (kvarn_extensions::mount_all): fixture pages and generated first lines (explore.file); push runs "
+     "on HTTP/2 only and is not reached (url_crawl is covered directly)"),
+    ("src/shutdown.rs connection count", "ConnectionGuard (drop guard, C10)", "component explore.server: a real RunConfig::execute server; "
+     "Manager::get_connecions() is read after every case and must be back at its idle value"),
+    ("http, h2, h3, rustls, moka, time (formatting), tokio, percent-encoding, mime, mime_guess, tree_magic_mini", "-",
+     "not modelled; exploration runs only (explore.conn, explore.server, explore.file)"),
 ]
 
 
@@ -133,8 +155,65 @@ def pq_case(path, query, kind):
     return Case("pathquery", xl(xb(path), xopt(None if query is None else xb(query))), None, {"kind": kind})
 
 
-def conn_case(data, kind, sched=(), read=True, profile="dev"):
-    return Case("explore.conn", xl(xb(data), xlist([xn(s) for s in sched]), xbool(read)), None, {"kind": kind}, profile)
+def conn_case(data, kind, sched=(), read=True, profile="dev", comp="explore.conn"):
+    return Case(comp, xl(xb(data), xlist([xn(s) for s in sched]), xbool(read)), None, {"kind": kind}, profile)
+
+
+def file_case(content, tmpl, kind, ext=0, one_request=False):
+    return Case("explore.file", xl(xb(content), xb(tmpl), xn(ext + (10 if one_request else 0))), None, {"kind": kind})
+
+
+def ims_case(t0, value, kind):
+    # the model takes t0 for the entry's creation time: dates within two days of it are left to C04 (to the second)
+    near = any(time.strftime("%Y", time.gmtime(t0 + d)).encode() in value and time.strftime("%b", time.gmtime(t0 + d)).encode() in value
+               for d in (-172800, 0, 172800))
+    return Case("ims.decide", xl(xn(t0), xb(value)), None, {"kind": kind, "ood": near})
+
+
+REFUSES_IDENTITY = re.compile(rb"(?i)accept-encoding[^\n]*(identity|\*)")
+
+
+def path_case(data, kind, sched=(), profile="dev", no_default=False):
+    # request_path gives the page as its representations per Accept-Encoding class (C09's abstraction): a value that can refuse the
+    # identity encoding (406 from clone_preferred, C06's subject) is outside it — not compared
+    return Case("c02.path", xl(xbool(profile == "dev"), xb(data), xlist([xn(s) for s in sched]), xbool(no_default)), None,
+                {"kind": kind, "ood": bool(REFUSES_IDENTITY.search(data))}, profile)
+
+
+def path_head(rng):
+    """One request for the compared request path (component c02.path): every stage's deciding input is in the menu."""
+    m = rng.choice([b"GET", b"GET", b"GET", b"HEAD", b"HEAD", b"POST", b"PUT", b"OPTIONS", b"OPTIONS", b"OPTIONS", b"DELETE", b"TRACE", b"get", b"G@T"])
+    t = rng.choice([b"/", b"/a", b"/a/", b"/a.", b"/a?x=1&y", b"/./a", b"/../x", b"//a", b"/a/../b", b"/%2e%2e/x", b"/%2E/", b"/a%", b"/%ff", b"/a%2fb", b"*",
+                    b"/a?", b"/?", b"/a b", b"/./cors_fail", b"/./cors_options", b"a", b"http://x/a", b"/" + b"a" * 200, b"/x.\xc3\xa9", b"/\xc3\xa9/"])
+    v = rng.choice([b"HTTP/1.1"] * 6 + [b"HTTP/1.0", b"HTTP/1.0", b"HTTP/0.9", b"HTTP/2", b"HTTP/1.2"])
+    hs = []
+    if m == b"OPTIONS" and rng.random() < 0.6:
+        hs += [(b"Origin", rng.choice([b"http://localhost", b"http://localhost", b"http://b.example", b"http://evil"])),
+               (b"Access-Control-Request-Method", rng.choice([b"PUT", b"GET", b""]))]
+    if rng.random() < 0.7:
+        hs.append((b"Host", rng.choice([b"localhost", b"localhost", b"b.example", b"alias.example", b"unknown", b"LOCALHOST", b"localhost:8080", b"", b"a b"])))
+    if rng.random() < 0.4:
+        hs.append((b"Range", rng.choice([b"bytes=0-0", b"bytes=5-2", b"bytes=2-5", b"bytes=0-%d" % U64, b"bytes=20-30", b"bytes=-5", b"bytes=2-5,7-9", b"bytes=9-9",
+                                         b"bytes=10-10", b"bytes=3-100", b"bytes=2-", b"bytes= 2-5", b"bytes=%d-%d" % (U64, U64), b"bytes=1-0", b"chars=1-2", b"\xff"])))
+    if rng.random() < 0.4:
+        hs.append((b"Origin", rng.choice([b"http://localhost", b"http://localhost", b"http://b.example", b"https://localhost", b"null", b"http://evil", b"\xff",
+                                          b"http://localhost:8080", b"http://unknown", b"http://LOCALHOST", b"", b"http://"])))
+    if rng.random() < 0.3:
+        hs.append((b"Access-Control-Request-Method", rng.choice([b"PUT", b"", b"\xff"])))
+    if rng.random() < 0.2:
+        hs.append((b"Accept-Encoding", rng.choice([b"gzip", b"br", b"identity", b"gzip, br"])))
+    if rng.random() < 0.2:
+        hs.append((b"If-Modified-Since", rng.choice([b"Fri, 31 Dec 9999 23:59:59 GMT", b"x"])))
+    body = b""
+    if rng.random() < 0.3:
+        n = rng.choice([b"0", b"3", b"5", b"x", b"-1", b"70000", b"%d" % U64])
+        hs.append((b"Content-Length", n))
+        body = rng.choice([b"", b"abc", b"abcde", b"abcdefgh"])
+    rng.shuffle(hs)
+    out = m + b" " + t + b" " + v + b"\r\n"
+    for n, val in hs:
+        out += n + rng.choice([b": ", b": ", b":"]) + val + b"\r\n"
+    return out + b"\r\n" + body
 
 
 def words(alpha, n, symbols=None):
@@ -156,10 +235,14 @@ def valid_head(rng, extra=()):
     t = rng.choice([b"/", b"/index.html", b"/h", b"/v", b"/f.txt", b"/n.html", b"/e.html", b"/t.html", b"/x.html", b"/sub/", b"/sub",
                     b"/secret.private", b"/api/x?a=1&b=2&a=3", b"/api/?=&&=", b"/h?x=%zz", b"/stream/s1000.bin", b"/stream/s0.bin",
                     b"/stream/s70000.bin", b"/post", b"/./h", b"/../x", b"//h", b"/%2e%2e/%2e%2e/etc/passwd", b"/a%", b"/%ff", b"/a.",
-                    b"*", b"/" + b"a" * 300])
+                    b"*", b"/" + b"a" * 300, b"/t2.html", b"/t3.html", b"/c1.html", b"/c2.html", b"/c3.html", b"/a1.html", b"/a2.html",
+                    b"/a3.html", b"/h1.html", b"/h2.html", b"/d1.html", b"/u1.html", b"/odd.name.tar.gz", b"/noext", b"/x.%C3%A9", b"/f.txt%00",
+                    b"/f.txt.", b"/f.%ff", b"/nothing-here.html", b"/stream/s200000.bin", b"/whoami",
+                    # raw (not percent-encoded) UTF-8 in the path and in the "extension" get_mime / the file-type Present lookup see
+                    b"/x.\xc3\xa9", b"/\xc3\xa9.html", b"/f.\xe2\x82\xac", b"/a.b", b"/.x", b"/stream/s10.\xc3\xa9", b"/x.\xc3\xa9?q=\xc3\xa9"])
     v = rng.choice([b"HTTP/1.1", b"HTTP/1.1", b"HTTP/1.0", b"HTTP/0.9", b"HTTP/2", b"HTTP/3"])
     hs = [(b"Host", rng.choice([b"localhost", b"localhost:8080", b"b.example", b"alias.example", b"alias.example.", b"unknown",
-                                b"[::1]", b"127.0.0.1:80", b"LOCALHOST", b"a b", b"", b"x@y:1:2"]))]
+                                b"[::1]", b"127.0.0.1:80", b"LOCALHOST", b"a b", b"", b"x@y:1:2", b"lim.example", b"lim.example"]))]
     menu = [
         (b"Range", lambda: rng.choice([b"bytes=0-0", b"bytes=5-2", b"bytes=0-%d" % U64, b"bytes=%d-%d" % (U64, U64), b"bytes=0-%d" % (U64 + 1),
                                        b"bytes=999999-", b"bytes=-5", b"bytes=2-5,7-9", b"bytes=3000-4000", b"bytes=2999-2999", b"bytes=",
@@ -172,7 +255,10 @@ def valid_head(rng, extra=()):
         (b"Origin", lambda: rng.choice([b"https://icelk.dev", b"http://localhost", b"null", b"localhost", b"http://", b"://", b"http://\xe9",
                                         b"https://icelk.dev:99999", b"a" * 70 + b"://x", b"http://[::1", b"http://a:b:c"])),
         (b"Access-Control-Request-Method", lambda: rng.choice([b"PUT", b"GET", b"", b"\xff", b"put"])),
-        (b"Accept-Language", lambda: rng.choice([b"sv", b"en;q=0.5, sv;q=0.9", b";;;", b"sv;q=NaN", b"sv;q=1e400", b"en;q=-0"])),
+        (b"Accept-Language", lambda: rng.choice([b"sv", b"en;q=0.5, sv;q=0.9", b";;;", b"sv;q=NaN", b"sv;q=1e400", b"en;q=-0"] + NASTY)),
+        (b"User-Agent", lambda: rng.choice([b"Mozilla/5.0 (Mobile) Firefox/1", b"curl"] + NASTY)),
+        (b"Cookie", lambda: rng.choice([b"a=b; c=d", b";", b" ; "] + NASTY)),
+        (b"Access-Control-Request-Headers", lambda: rng.choice([b"x-a, x-b", b","] + NASTY)),
         (b"Content-Length", lambda: rng.choice([b"0", b"5", b"%d" % U64, b"%d" % (U64 + 1), b"-1", b"+5", b"5, 5", b" 5", b"0x10", b"9" * 30])),
         (b"Connection", lambda: rng.choice([b"close", b"keep-alive", b"upgrade"])),
         (b"Upgrade", lambda: rng.choice([b"websocket", b"h2c"])),
@@ -190,6 +276,13 @@ def valid_head(rng, extra=()):
     for n, val in hs:
         out += n + rng.choice([b": ", b": ", b":", b":  ", b" : "]) + val + b"\r\n"
     return out + b"\r\n"
+
+
+# values of one or two bytes, not text, not UTF-8: for every header a vary rule, an extension or the core reads
+NASTY = [b"", b"a", b"\xff", b"\x80", b"\xc3", b"\xc3\xa9", b"\xe2\x82", b";", b",", b"=", b"\t", b"a\xff", b"\xffa", b"-", b"0"]
+READ_HEADERS = [b"Accept-Language", b"User-Agent", b"Cookie", b"Accept-Encoding", b"Range", b"If-Modified-Since", b"Origin",
+                b"Access-Control-Request-Method", b"Access-Control-Request-Headers", b"Host", b"Content-Length", b"Connection", b"Upgrade",
+                b"Content-Type", b"Cache-Control", b"Expect", b"Transfer-Encoding", b"Accept"]
 
 
 def mutate(rng, s, alpha=ALPHA + b"\x00\xff\t\x7f\x80"):
@@ -238,6 +331,12 @@ SPECIAL_HEADS = [
     b"GET /%ZZ HTTP/1.1\r\n\r\n", b"GET /% HTTP/1.1\r\n\r\n", b"GET /a?b?c#d HTTP/1.1\r\n\r\n", b"\x16\x03\x01\x02\x00\x01\x00\x01\xfc\x03\x03",
     b"PRI * HTTP/2.0\r\n\r\nSM\r\n\r\n", b"GET / HTTP/1.1\r\nContent-Length: 18446744073709551616\r\n\r\n",
     b"POST /post HTTP/1.1\r\nContent-Length: 18446744073709551615\r\n\r\nabc", b"POST /post HTTP/1.1\r\nContent-Length: 3\r\n\r\nabcdef",
+    # no handler reads the body: drain() discards what the head announced
+    b"POST /f.txt HTTP/1.1\r\nContent-Length: 18446744073709551615\r\n\r\nabc", b"PUT /index.html HTTP/1.1\r\nContent-Length: 9223372036854775808\r\n\r\n",
+    b"POST /nothing HTTP/1.1\r\nContent-Length: 18446744073709551614\r\n\r\n" + b"x" * 5000, b"POST /h HTTP/1.1\r\nContent-Length: 4097\r\n\r\n" + b"y" * 4096,
+    b"DELETE /stream/s10.bin HTTP/1.1\r\nContent-Length: 18446744073709551615\r\n\r\nz", b"POST /f.txt HTTP/1.1\r\nHost: lim.example\r\nContent-Length: 18446744073709551615\r\n\r\nabc",
+    b"GET / HTTP/1.1\r\nHost: lim.example\r\n\r\n", b"HEAD / HTTP/1.1\r\nHost: lim.example\r\n\r\n", b"GET /index.html\r\n\r\n", b"HEAD /a?b\r\nhost:localhost\r\n\r\n",
+    b"GET / HTTP/1.1\r\nX-Empty: \r\n\r\n", b"GET / HTTP/1.1\r\nX-Empty:   \t \r\n\r\n", b"GET / HTTP/1.1\r\nAccept-Encoding: \n\n",
 ]
 
 
@@ -275,6 +374,11 @@ def generate(rng, tier):
     cases.append(conn_case(b"GET /e.html HTTP/1.1\r\n\r\nGET /n.html HTTP/1.1\r\n\r\nGET /x.html HTTP/1.1\r\n\r\n", "corpus"))
     cases += range_cases(b"bytes=0-18446744073709551615", 10, "corpus")
     cases += [hdr_case(b"A: \n\n", "corpus"), hdr_case(b"A:\n\n", "corpus"), head_case(b"GET / HTTP/1.1\r\nA: \n\r\n", "corpus")]
+    # fe1115a (an empty last template), fa13a8b (a quote that is not closed)
+    cases += [file_case(b"!> tmpl T\n$[a]", b"$[a]\n", "corpus"), file_case(b"!> tmpl T\n<p>$[b]</p>", b"$[a]\nA\n$[b]\n", "corpus"),
+              Case("explore.urls", xb(b"<img src=\"/abc"), None, {"kind": "corpus"}), Case("explore.urls", xb(b"<link href='/x.css"), None, {"kind": "corpus"}),
+              Case("urls.iter", xl(xn(2), xbool(False), xb(b"<img src=\"/abc")), None, {"kind": "corpus"}),
+              Case("urls.iter", xl(xn(1), xbool(False), xb(b"<a href='/x")), None, {"kind": "corpus"})]
 
     # ---- heads ------------------------------------------------------------------------------------------------------
     cases += exhaustive_heads(tier)
@@ -325,6 +429,19 @@ def generate(rng, tier):
         for b_ in (0, 5, 9, 10, 11, U64 - 1, U64, U64 + 1):
             cases += stream_cases(b"bytes=%d-%d" % (a, b_), 10, "stream")
     cases += stream_cases(None, 0, "stream") + stream_cases(None, 70000, "stream") + stream_cases(b"bytes=0-0", 0, "stream")
+    # the chunk loop run to its end: windows around the 64 KiB buffer boundaries of files of 70000 and 200000 bytes, windows that
+    # end beyond the file, both arithmetic profiles
+    cases += stream_cases(None, 200000, "stream-loop", PROFILES) + stream_cases(None, 1000, "stream-loop") + stream_cases(None, 1, "stream-loop")
+    for n in (70000, 200000):
+        for a, b_ in [(0, 65534), (0, 65535), (0, 65536), (1, 65536), (65535, 65535), (65535, 65536), (65536, 65536), (65536, 65537), (65537, 69999),
+                      (0, n - 1), (0, n), (1, n + 5), (n - 1, n - 1), (n - 1, n + 70000), (n, n), (n + 1, n + 2), (131071, 131072), (131072, 131073),
+                      (5, U64), (69999, U64 - 1)]:
+            cases += stream_cases(b"bytes=%d-%d" % (a, b_), n, "stream-loop", PROFILES if (a + b_) % 3 == 0 else ("dev",))
+    for _ in range(40 if quick else 2000):
+        n = rng.choice([1000, 70000, 200000])
+        a = rng.choice([0, 1, rng.randrange(0, n), 65535, 65536, n - 1, n])
+        b_ = rng.choice([a, a + 1, rng.randrange(a, a + 140000), n - 1, n, n + 1, 65535, 65536, 131071, U64])
+        cases += stream_cases(b"bytes=%d-%d" % (a, max(a, b_)), n, "stream-loop", (rng.choice(PROFILES),))
     for w in words(b"", 3 if quick else 4, [b"bytes=", b"0", b"9", b"-", b"+", b",", b" ", b"18446744073709551615", b"18446744073709551616"]):
         cases += range_cases(w, 5, "range-words", profiles=("dev",) if quick else PROFILES)
     for _ in range(300 if quick else 20000):
@@ -341,10 +458,33 @@ def generate(rng, tier):
     dates = [b"Tue, 27 Jul 2021 14:08:15 GMT", b"Thu, 01 Jan 1970 00:00:00 GMT", b"Fri, 31 Dec 9999 23:59:59 GMT", b"Sat, 01 Jan 0000 00:00:00 GMT",
              b"Tue, 27 Jul -9999 14:08:15 GMT", b"Tue, 27 Jul +9999 14:08:15 GMT", b"Tue, 27 Jul 99999 14:08:15 GMT", b"Tue, 29 Feb 2021 00:00:00 GMT",
              b"Tue, 31 Jun 2021 24:00:00 GMT", b"Tue, 27 Jul 2021 23:59:60 GMT", b"", b"GMT", b"Tue", b"Tue, ", b"tue, 27 jul 2021 14:08:15 gmt"]
+    dates += [b"Sat, 29 Feb 2020 12:00:00 GMT", b"Fri, 31 Dec 9999 23:59:58 GMT", b"Mon, 01 Jan -9999 00:00:00 GMT", b"Wed, 01 Jan 9999 00:00:00 GMT",
+              b"Fri, 31 Dec +9999 23:59:59 GMT", b"Xxx, 31 Dec 9999 23:59:59 GMT", b"Mon, 31 Dec 9999 23:59:59 GMT", b"Fri, 31 Dec 9999 23:59:59 GMT ",
+              b"Fri, 31 Dec 9999 23:59:59", b"Thu, 01 Jan 1970 00:00:00 GMT\xff", b"\xff", b"Fri, 32 Dec 9999 23:59:59 GMT", b"Fri, 31 Dec 9999 24:00:00 GMT"]
     for d in dates:
         cases.append(Case("explore.date", xb(d), None, {"kind": "date"}))
     for _ in range(300 if quick else 20000):
-        cases.append(Case("explore.date", xb(mutate(rng, rng.choice(dates[:8]), b"0123456789 :,-+GMTJanFebTue")), None, {"kind": "date-random"}))
+        cases.append(Case("explore.date", xb(mutate(rng, rng.choice(dates[:8] + dates[15:19]), b"0123456789 :,-+GMTJanFebTue")), None, {"kind": "date-random"}))
+    # the same hit arm, its decision (200 / 304) compared with Model/Ims.v: one field at a time away from a valid date, then random fields
+    t0 = int(time.time())
+    FIELDS = [[b"Tue", b"Mon", b"Xxx", b"tue", b"Tu", b"Tues"], [b", ", b",", b" ", b",  "], [b"27", b"00", b"01", b"31", b"32", b"7", b" 7", b"2x"], [b" ", b""],
+              [b"Jul", b"Feb", b"Dec", b"jul", b"JUL", b"Abc", b"Ju"], [b" "], [b"2021", b"2221", b"9999", b"0000", b"-9999", b"+2221", b"-0000", b"99999", b"221", b"+221", b"--21"],
+              [b" "], [b"14", b"00", b"23", b"24", b"99", b"4"], [b":", b" "], [b"08", b"59", b"60"], [b":"], [b"15", b"59", b"60", b"61"],
+              [b" GMT", b"GMT", b" UTC", b" gmt", b" GMT ", b" GMT\t", b""]]
+    base = [f[0] for f in FIELDS]
+    for d in dates:
+        cases.append(ims_case(t0, d, "ims"))
+    for i, f in enumerate(FIELDS):
+        for v in f[1:]:
+            cases.append(ims_case(t0, b"".join(base[:i] + [v] + base[i + 1:]), "ims-field"))
+    for _ in range(400 if quick else 20000):
+        cases.append(ims_case(t0, b"".join(rng.choice(f) if rng.random() < 0.25 else f[0] for f in FIELDS), "ims-fields"))
+    for day in (28, 29, 30, 31):
+        for mon in (b"Feb", b"Apr", b"Jun", b"Sep", b"Nov", b"Jan"):
+            for year in (b"1900", b"2000", b"2100", b"2024", b"-0004", b"-0100", b"-0400", b"0000"):
+                cases.append(ims_case(t0, b"Tue, %d %s %s 00:00:00 GMT" % (day, mon, year), "ims-calendar"))
+    for _ in range(150 if quick else 10000):
+        cases.append(ims_case(t0, mutate(rng, rng.choice(dates[:8] + dates[15:19]), b"0123456789 :,-+GMTJanFebTue"), "ims-random"))
     # Origin, Host: the components of C13 / C15 on their own generators (their specifications are theirs; here: no panic)
     import c13
     import c15
@@ -416,6 +556,122 @@ def generate(rng, tier):
     if not quick:
         for c in [c for c in cases if c.comp == "h1.request" and c.meta["kind"].startswith("exh")][::40]:
             cases.append(conn_case(c.x[1][4][1], "conn-exh"))
+    # every header the core, a vary rule or an extension reads, with values of 0..2 bytes that are not text / not UTF-8, on the
+    # pages that read them (vary page, cached page with a CORS rule, query handler, file, stream, preflight), also behind the limiter
+    targets = [(b"GET", b"/v"), (b"GET", b"/h"), (b"GET", b"/api/x?a=1"), (b"GET", b"/f.txt"), (b"GET", b"/stream/s10.bin"), (b"OPTIONS", b"/api/x"),
+               (b"HEAD", b"/t2.html"), (b"POST", b"/post")]
+    for hn in READ_HEADERS:
+        for v in NASTY:
+            m, t = targets[(len(cases)) % len(targets)] if quick else (None, None)
+            for m, t in ([(m, t)] if quick else targets):
+                host = b"lim.example" if (len(cases) % 5 == 0) else b"localhost"
+                hs = [b"Host: " + host] if hn != b"Host" else []
+                if m == b"OPTIONS" and not hn.startswith(b"Access-Control-Request-M"):
+                    hs += [b"Origin: https://icelk.dev", b"Access-Control-Request-Method: PUT"] if hn != b"Origin" else [b"Access-Control-Request-Method: PUT"]
+                data = m + b" " + t + b" HTTP/1.1\r\n" + b"".join(h + b"\r\n" for h in hs) + hn + b": " + v + b"\r\n\r\n"
+                # twice on one connection: the second request meets the cache entry / the limiter's count of the first
+                cases.append(conn_case(data + data, "conn-header-value"))
+    # drain(): no handler reads the body; the head arrives alone, then the body in pieces, then more than the body (the next request / garbage)
+    for t in (b"/f.txt", b"/index.html", b"/nothing", b"/h", b"/stream/s10.bin", b"/t2.html"):
+        for cl in (1, 3, 4096, 5000, 70000):
+            for extra in (b"", b"GET / HTTP/1.1\r\nHost: localhost\r\n\r\n", b"\x00" * 9000):
+                if quick and (cl + len(extra) + len(t)) % 3:
+                    continue
+                head = b"POST " + t + b" HTTP/1.1\r\nHost: " + rng.choice([b"localhost", b"lim.example"]) + b"\r\nContent-Length: %d\r\n\r\n" % cl
+                body = b"b" * min(cl, rng.choice([cl, cl, cl // 2, 0]))
+                cases.append(conn_case(head + body + extra, "conn-drain", sched=[len(head), max(1, len(body) // 2), len(body) + len(extra)]))
+    # the 429 answer and the drop under malformed input: several requests to the rate-limited host on one connection
+    for _ in range(25 if quick else 600):
+        data = b""
+        for _ in range(rng.choice([2, 4, 7])):
+            base = valid_head(rng, extra=[(b"Host", b"lim.example")])
+            base = base.replace(b"Host: localhost\r\n", b"").replace(b"Host: b.example\r\n", b"")
+            data += base if rng.random() < 0.5 else mutate(rng, base)
+        cases.append(conn_case(data, "conn-limited", sched=rand_sched(rng, len(data)) if rng.random() < 0.3 else ()))
+    # the same bytes against a REAL server (RunConfig::execute): the connection count of the shutdown manager must come back
+    for s in SPECIAL_HEADS[::2 if quick else 1]:
+        if len(s) <= 20000:
+            cases.append(conn_case(s, "server-special", comp="explore.server"))
+    for _ in range(60 if quick else 3000):
+        base = valid_head(rng)
+        data = base if rng.random() < 0.5 else mutate(rng, base)
+        cases.append(conn_case(data, "server-random", sched=rand_sched(rng, len(data)) if rng.random() < 0.3 else (), read=rng.random() < 0.9,
+                               comp="explore.server"))
+    # served files that start with an extension line, through the real Present extensions (kvarn + kvarn-extensions), and the
+    # template files they name ("T" stands for the generated template file)
+    P_EXT = [b"tmpl", b"cache", b"hide", b"allow-ips", b"download", b"nonce", b"zz", b""]
+    P_ARG = [b"T", b"T T", b"client:full", b"server:none", b"client:1s server:0s", b"server:", b":", b"::", b"127.0.0.1", b"999.1.1.1 127.0.0.1", b"::1",
+             b"client:99999999999999999999s", b"\xc3\xa9", b"missing.html", b"\"a b\"", b"", b" "]
+    P_BODY = [b"", b"<p>$[a]</p>", b"$[", b"\\$[a]", b"\\\\$[a]", b"$[]", b"$[a", b"<!-- tmpl-ignore -->\n$[a]$[b]", b"\xff$[\xff]", b"<script nonce=\"x\">",
+              b"$[a]$[a]" * 40, b"x" * 47 + b"\ntmpl-ignore\n$[a]"]
+    T_FILES = [b"$[a]\nA\n$[b]\nB\n", b"$[a]\n", b"$[a]", b"", b"$[a]\r\n", b"$[a] x", b"\\$[a]\n$[b]\n", b"$[a]\n$[a]\n", b"$[\xff]\nx\n"]
+    for e in P_EXT:
+        for a in P_ARG:
+            for end in (b"\n", b"\r\n", b""):
+                line = b"!> " + e + (b" " + a if a else b"") + end
+                cases.append(file_case(line + rng.choice(P_BODY), rng.choice(T_FILES), "file-line", ext=rng.choice([0, 0, 0, 1, 2]),
+                                       one_request=quick and rng.random() < 0.7))
+    for _ in range(60 if quick else 3000):
+        parts = [rng.choice(P_EXT) + b" " + rng.choice(P_ARG) for _ in range(rng.choice([1, 2, 3]))]
+        line = b"!> " + rng.choice([b" &> ", b"&>", b" &>  "]).join(parts) + rng.choice([b"\n", b"\r\n", b"", b" \n"])
+        line = line if rng.random() < 0.7 else mutate(rng, line, ALPHA_P)
+        cases.append(file_case(line + rng.choice(P_BODY), rng.choice(T_FILES), "file-random", ext=rng.choice([0, 0, 1]), one_request=quick))
+    # template files: bounded-exhaustive over the structural tokens of the template syntax
+    for w in words(b"", 4 if quick else 5, [b"$[", b"a", b"]", b"\n", b"\r\n", b"\\", b" "]):
+        cases.append(file_case(b"!> tmpl T\n$[a]|$[b]", w, "file-template", one_request=True))
+    for b_ in P_BODY:
+        cases.append(file_case(b"!> tmpl T\n" + b_, b"$[a]\nA\n", "file-template"))
+        cases.append(file_case(b"!> hide\n" + b_, b"", "file-line", ext=1))
+    # ... and what the engine renders, compared with Model/Templates.v: template files and page bodies over the tokens of the syntax
+    T_SYMS = [b"$[", b"a", b"]", b"\n", b"\r\n", b"\\", b" ", b"b"]
+    def render_case(body, tfile, kind):
+        return Case("tmpl.render", xl(xb(body), xopt(None if tfile is None else xb(tfile))), None, {"kind": kind})
+    for w in words(b"", 4 if quick else 5, T_SYMS[:7]):
+        cases.append(render_case(b"$[a]|$[b]|\\$[a]", w, "render-template"))
+    for w in words(b"", 4 if quick else 5, T_SYMS):
+        cases.append(render_case(w, b"$[a]\nA\n$[b] B\r\n", "render-page"))
+    for b_ in P_BODY:
+        for t in T_FILES + [None]:
+            cases.append(render_case(b_, t, "render-fixed"))
+    for _ in range(400 if quick else 20000):
+        body = b"".join(rng.choice(T_SYMS + [b"tmpl-ignore", b"<p>", b"\xff", b"$[a]", b"$[b]", b"x" * 45]) for _ in range(rng.randrange(0, 12)))
+        tf = b"".join(rng.choice(T_SYMS + [b"$[a]", b"$[b]", b"\xff", b"text"]) for _ in range(rng.randrange(0, 12)))
+        cases.append(render_case(body, tf if rng.random() < 0.9 else None, "render-random"))
+    cases.append(render_case(b"<p>$[a]</p>", b"$[a]\n", "corpus"))
+    # url_crawl (anchor url-crawl/src/lib.rs): the link iterators the push extension and the reverse proxy run on HTML
+    U_SYMS = [b"<", b"img", b" src=", b" href=", b"\"", b"'", b"`", b"/a", b">", b"link", b" rel=\"stylesheet\"", b"\xc3\xa9", b"//", b"\\",
+              b"background-image: url(", b"/abc", b")"]
+    for w in words(b"", 3 if quick else 4, U_SYMS):
+        cases.append(Case("explore.urls", xb(w), None, {"kind": "urls-words"}))
+    html = (b"<!DOCTYPE html><html><head><link rel=\"stylesheet\" href=\"/style.css\"><script src='/s.js'></script></head><body>"
+            b"<img src=\"/a.png\" loading=\"lazy\"><main style=\"background-image: url('/bg.png');\"><a href=\"/x\">x</a></main></body></html>")
+    for _ in range(500 if quick else 30000):
+        m = mutate(rng, html, b"<>\"'` =/\\\xc3\xa9\xff")
+        m = m[:rng.randrange(0, len(m) + 1)] if rng.random() < 0.5 else m
+        cases.append(Case("explore.urls", xb(m), None, {"kind": "urls-random"}))
+        cases.append(Case("urls.iter", xl(xn(rng.choice([0, 1, 2, 2])), xbool(rng.random() < 0.3), xb(m)), None, {"kind": "urls-iter-random"}))
+    # ... and the items they yield, compared with Model/UrlCrawl.v (every quote / absolute-path filter / resource filter)
+    for w in words(b"", 3 if quick else 4, U_SYMS):
+        f = len(w) % 3
+        cases.append(Case("urls.iter", xl(xn(f), xbool(len(w) % 5 == 0), xb(w)), None, {"kind": "urls-iter-words"}))
+    for w in words(b"", 4 if quick else 6, [b"\"", b"'", b"/", b"a", b"=", b" src=", b"\xc3\xa9", b"\\", b"//"]):
+        cases.append(Case("urls.iter", xl(xn(len(w) % 3), xbool(False), xb(b"<img src=" + w)), None, {"kind": "urls-iter-words"}))
+    # ONE request against a minimal collection (with / without a default host): the class of the answer — closed, 409, 400, 403, 204,
+    # 416, reply with status / length / content-range / body — is COMPARED with the model's request_path (the order of the stages)
+    for s in SPECIAL_HEADS:
+        if len(s) <= 20000:
+            cases.append(path_case(s, "path-special", no_default=len(s) % 3 == 0))
+    for w in words(ALPHA, 2):
+        cases.append(path_case(b"GET /" + w + b" HTTP/1.1\r\nHost: localhost\r\n\r\n", "path-words"))
+    for _ in range(500 if quick else 20000):
+        data = path_head(rng)
+        data = data if rng.random() < 0.7 else mutate(rng, data)
+        cases.append(path_case(data, "path-random", sched=rand_sched(rng, len(data)) if rng.random() < 0.3 else (), profile=rng.choice(PROFILES),
+                               no_default=rng.random() < 0.25))
+    for _ in range(100 if quick else 3000):
+        cases.append(path_case(valid_head(rng), "path-valid", no_default=rng.random() < 0.25))
+    # last: the accounting case of the live components (see extra_oracle)
+    cases.append(Case("query.parse", xb(b"live=accounting"), None, {"kind": "live-accounting"}))
     return cases
 
 
@@ -433,27 +689,68 @@ def has_panic(c, i):
     return i.startswith(PANIC)
 
 
+LIVE = ("explore.conn", "explore.server", "explore.file", "explore.date", "ims.decide", "stream.window", "c02.path", "tmpl.render")
+TROUBLE = {}          # id -> (component, kind, message) of the live cases the harness could not execute (no verdict)
+
+
+def harness_trouble(c, i):
+    """(L (N 93) msg): the harness could not do ITS part (no socket, no server, no answer within 30 s on a busy machine) after
+    three attempts.  Not a verdict: counted and named in the evidence; too many of them fail the run as a harness error."""
+    if c.comp in LIVE and i.startswith("(L (N 93)"):
+        msg = ""
+        if "(B " in i:
+            msg = bytes.fromhex(i[i.index("(B ") + 3:i.index(")", i.index("(B "))]).decode("latin1")
+        TROUBLE[c.id] = (c.comp, c.meta.get("kind"), msg)
+        return True
+    return False
+
+
+def trouble_limit(cases):
+    live = sum(1 for c in cases if c.comp in LIVE)
+    return max(5, live // 50)
+
+
+N_LIVE = [0]
+
+
 def extra_oracle(c, i):
+    if c.meta.get("kind") == "live-accounting":
+        limit = max(5, N_LIVE[0] // 50)
+        if len(TROUBLE) > limit:
+            return ("HARNESS ERROR, not a finding about kvarn: %d of %d live cases could not be executed (limit %d): %s"
+                    % (len(TROUBLE), N_LIVE[0], limit, sorted(TROUBLE.items())[:8]))
+        return None
     # independent of every model: no panic, anywhere
     bad = has_panic(c, i)
     if bad:
         what = "a panic" + (": " + bytes.fromhex(i[i.index("(B ") + 3:i.index(")", i.index("(B "))]).decode("latin1")
                             if c.comp.startswith("explore") and "(B " in i else "")
         return "%s in %s on this input (profile %s)" % (what, c.comp, c.profile)
-    if c.comp == "explore.conn" and i.startswith("(L (N 94)"):
-        return "the connection task did not end within 20 s after the client closed its sending side"
+    if c.comp in ("explore.conn", "explore.file") and i.startswith("(L (N 94)"):
+        return "the connection task did not end within 30 s after the client closed its sending side (two attempts)"
+    if c.comp == "explore.server" and i.startswith("(L (N 95)"):
+        return "shutdown::Manager::get_connecions() did not return to its idle value after the connection had gone: " + i
+    if c.comp in ("explore.date", "ims.decide") and i.startswith("(L (N 92)"):
+        return "harness: the If-Modified-Since request was not answered from the response cache (the hit arm is the code under test)"
     return None
 
 
+SEEN_LIVE = set()
+
+
 def out_of_domain(c, i):
+    if has_panic(c, i):
+        return False                      # a panic is never out of domain: the model-independent oracle must see it
     if c.comp == "stream.window" and c.x[1][1][1]:
         # whether file.seek(start) succeeds for 2^31 <= start < 2^63 is the file system's business (s_maxbytes);
         # beyond i64::MAX it always fails, below 2^31 it always succeeds: only those are compared
-        import re
         m = re.match(rb"bytes=\+?(\d+)-", c.x[1][1][1][0][1])
         if m and 2 ** 31 <= int(m.group(1)) < 2 ** 63:
             return True
-    return i.startswith("(L (N 96)") or bool(c.meta.get("ood"))
+    if c.comp in LIVE:
+        N_LIVE[0] += 0 if c.id in SEEN_LIVE else 1
+        SEEN_LIVE.add(c.id)
+    return i.startswith("(L (N 96)") or bool(c.meta.get("ood")) or harness_trouble(c, i)
 
 
 def spec_ok(c, i, s):
@@ -471,9 +768,12 @@ def signature(c, m):
 
 def classify(c, i):
     # integer * multiplier in from_kvarn_cache_control, builds with overflow checks only; the value comes from a handler's or an
-    # upstream server's RESPONSE, never from the client
+    # upstream server's RESPONSE, never from the client.  ONLY the overflow inputs (u32 integer x unit >= 2^32) are in the class: any
+    # other panic of that function is a new finding
     if c.comp == "cc.kvarn" and c.profile == "dev" and i.startswith(PANIC):
-        return "kvarn-cache-control-overflow"
+        m = re.fullmatch(rb"(\d+)([smhd])", c.x[1][1][1].strip(b" \t\n\r\x0b\x0c"))
+        if m and int(m.group(1)) < 2 ** 32 and int(m.group(1)) * {b"s": 1, b"m": 60, b"h": 3600, b"d": 86400}[m.group(2)] >= 2 ** 32:
+            return "kvarn-cache-control-overflow"
     return None
 
 
@@ -483,7 +783,7 @@ def describe(c):
     if c.comp == "h1.request":
         d["head"] = kv.pretty(x[1][4], 300)
         d["schedule"] = [b[1] for b in x[1][5][1]][:12]
-    elif c.comp == "explore.conn":
+    elif c.comp in ("explore.conn", "explore.server"):
         d["bytes_sent"] = kv.pretty(x[1][0], 300)
     else:
         d["input"] = kv.pretty(x, 300)
@@ -498,10 +798,16 @@ def extra_coverage(cases, impl, model, spec):
     return {"inventory": [{"where": w, "partial_operations": o, "covered_by": m} for w, o, m in INVENTORY],
             "cases_per_component": per,
             "exploration_only_cases": len(expl),
-            "exploration_note": "explore.conn / explore.date are a TEST of the unmodelled rest (live handle_connection with default extensions, "
-                                "CORS, CSP, nonce, vary, files, stream_body, a query-parsing and a body-reading handler; the time crate's date "
-                                "parser): their 'model' is the constant 'ends cleanly'",
-            "panics_observed": sum(1 for c in cases if c.id in impl and extra_oracle(c, impl[c.id]))}
+            "exploration_note": "explore.conn / explore.server / explore.file / explore.date / explore.urls are a TEST of the unmodelled rest (live "
+                                "handle_connection and a live server with the default extensions + kvarn-extensions, CORS, CSP, nonce, vary rules on three "
+                                "headers, files, templates, stream_body, a query-parsing and a body-reading handler, a rate-limited host): their 'model' is "
+                                "the constant 'ends cleanly'",
+            "panics_observed": sum(1 for c in cases if c.id in impl and c.meta.get("kind") != "live-accounting" and extra_oracle(c, impl[c.id])),
+            "not_executed_ids": [{"id": c.id, "component": c.comp, "kind": c.meta.get("kind"), "missing": ("implementation" if c.id not in impl else "model")}
+                                 for c in cases if c.id not in impl or c.id not in model][:50],
+            "live_cases": sum(1 for c in cases if c.comp in LIVE),
+            "live_cases_not_executed": [{"id": k, "component": v[0], "kind": v[1], "why": v[2]} for k, v in sorted(TROUBLE.items())],
+            "live_cases_not_executed_limit": trouble_limit(cases)}
 
 
 def directed(rng, mismatches):
@@ -524,49 +830,78 @@ def directed(rng, mismatches):
 
 
 RULE = ("No PANIC outcome anywhere (oracle independent of the models), and the models predict the implementation's outcome exactly "
-        "(correspondence; a panic must be predicted in both directions). Components: h1.request / h1.headers (kvarn_async::read::request over a "
+        "(correspondence; a panic must be predicted in both directions). Compared components: h1.request / h1.headers (kvarn_async::read::request over a "
         "scripted reader, parse::headers; both arithmetic profiles): bounded-exhaustive over the structural alphabet {G E T SP / : CR LF a 0 - = , ; %} "
         "(raw heads up to length 3 quick / 5 thorough; 'GET' + up to 3 / 5 symbols + blank line; up to 2 / 4 symbols in the target position; header blocks over {a : SP CR LF 0 - ; % NUL 0xff TAB} up to length 3 / 5, directly and behind a request line), "
-        "a list of special heads (bare LF, NUL, non-ASCII, empty parts, over-long tokens, TLS/h2 prefaces), mutated valid heads with random read "
-        "schedules and end modes, heads up to and across the 16 KiB limit; range.serve (Range values: extreme numbers 0..10^40 around 2^32, 2^63, 2^64, "
-        "words over the value alphabet, mutations; both profiles) and stream.window (the same window in stream_body, over loopback); "
-        "neg.list_header (Accept-Encoding / Accept-Language words and random values); explore.date (If-Modified-Since through the time crate, "
-        "exploration); cors.check (Origin, C13's generator); hosts.lookup (Host, C15's generator); pathsan.direct (targets over {/ . % 2 e f a %2e %2f %ff}); "
+        "a list of special heads (bare LF, NUL, non-ASCII, empty parts, blank values, HTTP/0.9 request lines, over-long tokens, TLS/h2 prefaces, huge content-lengths), mutated valid heads with random read "
+        "schedules and end modes, heads up to and across the 16 KiB limit; c02.path (ONE request over loopback through the real handle_connection on a minimal collection "
+        "with / without a default host: closed / 409 / 400 / 403 / 204 / 416 / status + content-length + content-range + body, compared with the model's request_path — the ORDER of the stages); "
+        "range.serve (Range values: extreme numbers 0..10^40 around 2^32, 2^63, 2^64, "
+        "words over the value alphabet, mutations; both profiles) and stream.window (stream_body over loopback: announced length, the bytes really sent — the chunk loop runs to its end on "
+        "files of up to 200000 bytes with windows around the 64 KiB buffer boundaries and beyond the file —, the framing of the next response); "
+        "neg.list_header (Accept-Encoding / Accept-Language words and random values); ims.decide (If-Modified-Since through the REAL hit arm of handle_cache on a warmed cache: 200 / 304 vs. "
+        "Model/Ims.v; one field at a time away from a valid date, random fields, calendar corners, the ends of the time crate's range); "
+        "cors.check (Origin, C13's generator); hosts.lookup (Host, C15's generator); pathsan.direct (targets over {/ . % 2 e f a %2e %2f %ff}); "
         "query.parse / query.iter / pathquery (query strings over {a b = & % 2 %26 %3d e-acute +}, every next/next_back script up to length 4, "
-        "specification: the values of the name in order); present.parse (first lines of served files over {! > SP & CR LF a n o c e = \" '}). "
-        "PLUS an end-to-end EXPLORATION (explore.conn, a test, not a proof): the special heads, mutated valid requests (all header kinds above, "
-        "pipelined, with random TCP segmentation) are sent over loopback to the real kvarn::handle_connection on a host with Extensions::new() + CORS "
-        "rules + vary + handlers + files + stream_body; a counting panic hook and the connection task's JoinHandle::is_panic must stay clean and the "
-        "task must end after the client closes. distinct_nontrivial counts distinct (input, model outcome class) pairs")
+        "specification: the values of the name in order); present.parse (first lines of served files over {! > SP & CR LF a n o c e = \" '}); urls.iter (url_crawl::LinkIter, three filters, "
+        "words over the link syntax and mutated HTML vs. Model/UrlCrawl.v); tmpl.render (a '!> tmpl' page and its template file through handle_cache: the rendered body vs. Model/Templates.v; "
+        "template files and page bodies bounded-exhaustively over {$[ a b ] LF CRLF \\ SP} up to 4 / 5 tokens, random compositions). "
+        "PLUS EXPLORATION (a test, not a proof; the 'model' is 'ends cleanly'): explore.conn — the special heads, mutated valid requests (all header kinds above, "
+        "pipelined, with random TCP segmentation), every header the core / a vary rule / an extension reads with values of 0..2 bytes that are not text or not UTF-8, several requests to a "
+        "rate-limited host (429, drop) — over loopback to the real kvarn::handle_connection on hosts with Extensions::new() + kvarn_extensions::mount_all + CORS "
+        "rules + vary rules + handlers + files + templates + stream_body; a counting panic hook and the connection task's JoinHandle::is_panic must stay clean and the "
+        "task must end after the client closes; explore.server — the same bytes against a real RunConfig::execute server: shutdown::Manager::get_connecions() must return to its idle value; "
+        "explore.file — generated first lines ('!> ' + extension names + arguments) and template files (bounded-exhaustive over {$[ a ] LF CRLF \\ SP}) served through the real Present extensions; "
+        "explore.date; explore.urls. A live case the harness could not execute after three attempts (no socket, no answer within 30 s) is not a verdict: it is counted and named "
+        "(coverage.live_cases_not_executed); more than max(5, 2 %) of them fail the run as a harness error. distinct_nontrivial counts distinct (input, model outcome class) pairs")
 ASSUMPTIONS = [
     "the theorems are about the models; each model is tied to the code by the correspondence run of this property and of its own property "
     "(C01 PathSan, C06 Negotiate, C07 Http1Read, C09 Range/RangeConn, C12 Limiter, C13 Cors, C14 Nonce, C15 Hosts, C16 PresentLine)",
     "query strings, header values and names handed to parse::query / list_header are Rust &str (valid UTF-8): every index the code computes is "
     "next to an ASCII delimiter, so str::get's character-boundary test never fails where the byte model's slice_get succeeds",
     "request_path composes the stages for ONE request of a connection with a host whose page for the URI is given as its representations per "
-    "Accept-Encoding class (as in C09); Prepare/Present/Package/Post extensions other than the modelled ones, TLS, HTTP/2, HTTP/3, WebSockets, "
-    "the compressors and the crates http/h2/rustls/moka/time/tokio are outside the theorems (exploration only)",
+    "Accept-Encoding class (as in C09); the limiter stage takes the history of earlier registrations on the host's limiter (at most usize::MAX / 3 calls, "
+    "the hypothesis of limiter_never_panics); Prepare/Present/Package/Post extensions other than the modelled ones, TLS, HTTP/2, HTTP/3, WebSockets, "
+    "the compressors and the crates http/h2/rustls/moka/tokio are outside the theorems (exploration only)",
     "bodies fit in memory (length < 2^64), the hypothesis of range_never_panics (page_fits)",
+    "c02.path: an Accept-Encoding value that names identity or * (it may refuse the identity encoding: 406 from clone_preferred, decided by C06) is outside "
+    "request_path's page-per-encoding-class abstraction and is not compared (a panic is never out of domain: the no-panic oracle still applies)",
     "stream.window: whether seeking a file to an offset in [2^31, 2^63) succeeds depends on the file system; those starts are out of domain "
-    "(the model's seek fails exactly beyond i64::MAX)",
+    "(the model's seek fails exactly beyond i64::MAX); stream_body_never_panics: every read returns at most the 64 KiB buffer and file offsets stay "
+    "below 2^63 (what the kernel guarantees)",
+    "if_modified_since_never_panics: the cache entry was not made in the first second of the year -9999 (the server's clock); Model/Ims.v transcribes "
+    "the time crate 0.3.55 without the large-dates feature (weekday parsed but not checked, optional sign before a four-digit year) — a crate update "
+    "that changes the parser shows up as a mismatch of ims.decide; the model takes the generator's clock for the entry's creation time, values within two "
+    "days of it are not compared (C04 decides those to the second)",
+    "Model/UrlCrawl.v, Model/Templates.v and the Present code of kvarn-extensions work on FILE or UPSTREAM content, not on request bytes (the property's "
+    "quantifier over served files); the HTTP/2 push extension itself (which calls url_crawl) is not reached: HTTP/1 only; Model/Templates.v takes ONE "
+    "template file per page (the code tries the named files in reverse order until one has the template) and template names that are valid UTF-8 byte strings",
 ]
 TRUSTED = ["modelled here (Model/Panics.v): utils/src/parse.rs query, Query::{insert,index_of,iterate_to_first,iterate_to_last}, QueryPairIter "
-           "(repaired code, commit 55bc7f7), src/comprash.rs PathQuery, src/extensions.rs stream_body (window arithmetic)",
+           "(repaired code, commit 55bc7f7), src/comprash.rs PathQuery, src/extensions.rs stream_body (window arithmetic and the chunk loop); "
+           "Model/Ims.v: the If-Modified-Since test of handle_cache incl. the time crate's parser for HTTP_DATE; Model/UrlCrawl.v: url_crawl::LinkIter "
+           "(repaired code, commit fa13a8b) and its two filters; Model/Templates.v: kvarn-extensions' extract_templates (repaired code, commit fe1115a) and "
+           "handle_template",
            "borrowed models (tied by their own properties and re-run here): Http1Read.v, Range.v, RangeConn.v, PathSan.v, Negotiate.v, Cors.v, Hosts.v, "
            "PresentLine.v, Limiter.v, Nonce.v",
-           "harness/src/c02.rs, c02conn.rs (loopback client, counting panic hook), c07.rs (scripted reader), c09.rs, c06.rs, c13.rs, c15.rs, c01.rs, c16.rs",
-           "the ORDER in which request_path composes the stages is a hand transcription of handle_connection / handle_cache / SendKind::send; "
-           "each stage is compared with the code, the composition as a whole only through the exploration run (no panic on a live connection)"]
+           "harness/src/c02.rs, c02conn.rs (loopback client, counting panic hook, real server on a locked port, fixture tree), c07.rs (scripted reader), c09.rs, c06.rs, c13.rs, c15.rs, c01.rs, c16.rs",
+           "the ORDER in which request_path composes the stages is a hand transcription of handle_connection / handle_cache / SendKind::send, COMPARED "
+           "with the real handle_connection by component c02.path on a minimal collection (class of the answer); the page, the cache state and the limiter "
+           "history are parameters of the theorem, instantiated there by a 10-byte page, no cache, limiter off"]
 LEVEL_TEXT = ("Machine-checked Coq theorems: every modelled parser / decision function on the request path returns without panic for EVERY input "
-              "(request heads under every read schedule and end mode, header blocks, Range / Accept-Encoding / Origin / Host values, paths, query "
-              "strings, query iterator scripts, cache keys, stream windows; both arithmetic modes where overflow matters), and the composition "
-              "request_path (reader -> host choice -> sanitize -> CORS origin test -> cache key -> file path -> query parsing -> negotiation -> "
-              "cache -> range -> send) never panics for any head, schedule, host collection, page and cache state. The models are byte-faithful "
+              "(request heads under every read schedule and end mode, header blocks, Range / Accept-Encoding / If-Modified-Since / Origin / Host values, paths, query "
+              "strings, query iterator scripts, cache keys, the whole streaming loop of stream_body for every window, file length and sequence of read results; "
+              "both arithmetic modes where overflow matters), and the composition "
+              "request_path, in the code's order (reader -> host choice -> request limiter -> sanitize path / range -> CORS gate incl. preflight -> cache key -> file path -> "
+              "query parsing -> negotiation -> cache -> range -> send), never panics for any head, schedule, host collection, limiter configuration and history, page and cache state. "
+              "The If-Modified-Since test is modelled with the time crate's parser: no header value panics it, it answers 304 exactly for a date not older than creation - 1 s, and the "
+              "rewrite that does its arithmetic on the client's date is refuted (year 9999). The models are byte-faithful "
               "transcriptions with every slice / index / unwrap / checked arithmetic explicit and are tied to the code on every run by a "
-              "differential run in which a panic must be predicted exactly, plus a model-independent no-panic oracle; one defect found on the way "
-              "(Query::get_last always panicked) is repaired and its old behaviour kept as a refuted statement. What is NOT modelled (http, time, "
-              "moka, tokio, compressors, TLS/h2/h3, extension code other than the modelled ones) is covered by an exploration run against a live "
-              "connection only — a test, not a proof.")
+              "differential run in which a panic must be predicted exactly — the composition itself by the class of the answer of the real handle_connection —, plus a "
+              "model-independent no-panic oracle; three defects found on the way are repaired and their old behaviour kept as refuted statements where modelled "
+              "(Query::get_last always panicked; url_crawl::LinkIter on an unclosed quote; kvarn-extensions' template parser on an empty last template). "
+              "What is NOT modelled (http, moka, tokio, compressors, TLS/h2/h3, vary lookup, CSP, MIME detection, kvarn-extensions' other Present code) is covered by exploration runs against live "
+              "connections, a live server (whose connection count must return to idle) and generated file contents only — a test, not a proof.")
 LEVEL_NOTE = ("Partial by construction: panic-freedom is proved for the modelled functions (see coverage.inventory for the table of partial "
               "operations and what covers each) and tested for the rest. Trusted: Coq kernel, extraction (reduced by the kernel recheck sample), "
               "the hand transcriptions as validated by the differential runs. No axioms.")
@@ -607,6 +942,22 @@ THEOREMS = [
      "forall (checked : bool) (hdr : option bytes) (range : option (N * N)) (file_len : N), Range.sanitize_range hdr = Ok range -> stream_window checked range file_len <> Panic"),
     ("stream_chunk_never_panics",
      "forall (checked : bool) (pos read end_ : N), pos < end_ -> pos + read <= u64_max -> stream_chunk checked pos read end_ <> Panic"),
+    ("stream_body_never_panics",
+     "forall (checked : bool) (hdr : option bytes) (range : option (N * N)) (file_len : N) (reads : list N) (start end_ len : N), Range.sanitize_range hdr = Ok range -> stream_window checked range file_len = Ok (start, end_, len) -> Forall (fun r => r <= stream_buf) reads -> start + nsum (live_reads reads) <= 9223372036854775807 -> exists sent, stream_loop checked start end_ reads = Ok sent /\\ nsum sent = N.min len (nsum (live_reads reads)) /\\ nsum sent <= len"),
+    ("if_modified_since_never_panics",
+     "forall (creation : Z) (hdr : option bytes), (odt_min + 1 <= creation <= odt_max)%Z -> ims_fresh false creation hdr <> Panic"),
+    ("if_modified_since_rule",
+     "forall (creation : Z) (hdr : option bytes), (odt_min + 1 <= creation <= odt_max)%Z -> (ims_fresh false creation hdr = Ok true <-> exists v ts, hdr = Some v /\\ Http1Read.hv_to_str_ok v = true /\\ parse_http_date v = Some ts /\\ (creation - 1 <= ts)%Z) /\\ (ims_fresh false creation hdr = Ok true \\/ ims_fresh false creation hdr = Ok false)"),
+    ("if_modified_since_plus_variant_refuted",
+     "forall creation : Z, ims_fresh true creation (Some last_second) = Panic"),
+    ("link_iter_never_panics",
+     "forall (filter : bytes -> nat -> bool) (interdomain : bool) (data : bytes), link_iter false filter interdomain data <> Panic"),
+    ("link_iter_v0_refuted",
+     "link_iter true filter_resource false unclosed = Panic /\\ link_iter true filter_absolute false unclosed = Panic /\\ link_iter false filter_resource false unclosed = Ok [IPath (B \"/abc\") (B \"<img src=\" ++ [34]) 1]"),
+    ("template_engine_never_panics",
+     "forall (tfile : option bytes) (body : bytes), render false tfile body <> Panic"),
+    ("template_engine_v0_refuted",
+     "extract_templates true empty_last = Panic /\\ render true (Some empty_last) (B \"<p>$[a]</p>\") = Panic /\\ render false (Some empty_last) (B \"<p>$[a]</p>\") = Ok (B \"<p></p>\") /\\ render true (Some empty_last) (B \"<p>no placeholder $[</p>\") = Ok (B \"<p>no placeholder \")"),
     ("present_line_never_panics",
      "forall data : bytes, exists r, PresentLine.present_parse data = Ok r /\\ match r with | Some p => (PresentLine.p_data_start p <= length data)%nat /\\ PresentLine.p_body p = skipn (PresentLine.p_data_start p) data | None => True end"),
     ("nonce_rewriter_never_panics",
@@ -616,5 +967,5 @@ THEOREMS = [
     ("kvarn_cache_control_checked_refuted",
      "CacheControl.from_kvarn_cache_control true (B \"4294967295d\") = Panic"),
     ("request_path_never_panics",
-     "forall (grow : nat -> nat -> nat -> nat) (parse_q : bytes -> option Negotiate.qclass) (checked : bool) (mode : N) (https : bool) (ops : list Hosts.op) (c : Hosts.collection) (dh : option bytes) (max_len : nat) (limit : N) (public : bytes) (cors_default_deny caching : bool) (pg : RangeConn.page) (cache : option RangeConn.page) (stream : bytes) (sched : list nat), Hosts.build ops = Ok c -> RangeConn.page_fits pg -> RangeConn.cache_ok pg cache -> request_path grow parse_q checked mode https c dh max_len limit public cors_default_deny caching pg cache stream sched <> Panic"),
+     "forall (grow : nat -> nat -> nat -> nat) (parse_q : bytes -> option Negotiate.qclass) (checked : bool) (mode : N) (https : bool) (ops : list Hosts.op) (c : Hosts.collection) (dh : option bytes) (max_len : nat) (limit : N) (lcfg : Limiter.config) (t0 : N) (lh : list Limiter.event) (addr now : N) (public : bytes) (cors_default_deny caching : bool) (pg : RangeConn.page) (cache : option RangeConn.page) (stream : bytes) (sched : list nat), Hosts.build ops = Ok c -> Limiter.fits (S (length lh)) -> RangeConn.page_fits pg -> RangeConn.cache_ok pg cache -> request_path grow parse_q checked mode https c dh max_len limit lcfg t0 lh addr now public cors_default_deny caching pg cache stream sched <> Panic"),
 ]
